@@ -23,6 +23,7 @@ func checkC19(c *Ctx) {
 	c.checkRewriteOnlyIndexed()
 	c.checkTagDeltaOrder()
 	c.checkTagsNormalisedBeforeSort()
+	c.checkRepeatedOperatorSeenAcrossSpace()
 	// of the owner-only operations (C06.5) only those on tags belong to this property
 	c.R.Scoped(func(rule, construct string) bool { return strings.Contains(construct, "Tags") }, c.checkOwnerOnlyOps)
 }
